@@ -95,10 +95,17 @@ CLAIMED["C01"] = dict(
     "range of the block's interval and IR.delete removes exactly the requested range; no other byte of any interval "
     "changes through splitting, joining, removing, clean-up and all CFG / aux-data fix-ups (frame lemmas through "
     "the whole operation); the running-offset loop of _apply_modifications over sorted disjoint edits computes "
-    "exactly the plain simultaneous splice (induction over the edit list, block placed anywhere in its interval)."
-    + EMOD_TIE + " The offsets used by _apply_modifications are compared with the running-offset model. Partial: the "
-    "alignment padding of join_byte_intervals and the block-offset bookkeeping that links one operation to the next "
-    "are covered by the oracle and the correspondence, not by a theorem.",
+    "exactly the plain simultaneous splice (induction over the edit list, block placed anywhere in its interval); "
+    "and the loop itself on the IR (IR.applyMods: each request by IR.insert / IR.delete on the block the previous "
+    "one returned, at offset + total_insert_len - block_delta) is that splice for every list of resolved requests "
+    "of a block: whatever block comes back from insert/delete lies in the same byte interval (invariant through "
+    "split, join, remove, clean-up and the patch placement), so the corrected offset designates the listing "
+    "position (theorem loop_is_listing; premises: block ids below the id counter - kept by every operation - and "
+    "patch blocks that are new objects; both are evaluated on every recorded state)."
+    + EMOD_TIE + " Every iteration of the real loop (block handed over, offset passed, state at the end of the "
+    "iteration) is compared with IR.applyMods. Partial: the alignment padding of join_byte_intervals and the outer "
+    "loop over the blocks of a module (each block has its own byte interval during the rewrite) are covered by the "
+    "oracle and the correspondence, not by a theorem.",
     technique=EMOD_TECH,
     design="DESIGN.md#c01",
 )
